@@ -140,6 +140,7 @@ type Exec struct {
 	fixedOrder  bool
 	nconc       int
 	checkShared bool
+	recoverStack []*recoverCtx
 	blockLog    []blockRec
 	profile     map[string]*[3]int64 // fn -> self terms, calls, self ns
 	profStack   []profRec
@@ -174,6 +175,11 @@ type retRec struct {
 	g *T
 	v Value
 }
+type recoverCtx struct {
+	panicking *T // guard under which the deferring frame is panicking
+	recovered *T // guard under which recover() has been called while panicking
+}
+
 type deferRec struct {
 	g    *T
 	fv   Value
@@ -304,12 +310,21 @@ func (ex *Exec) call(fn *ssa.Function, args []Value, env []Value, g *T, caller *
 	}
 	fr.inbox[0] = []edgeIn{{g: g, regs: regs}}
 	ex.execElems(fr, fi.wto)
-	// deferred calls run under their registration guard (covers normal and panicking exits)
-	for i := len(fr.defers) - 1; i >= 0; i-- {
-		d := fr.defers[i]
-		ex.suppress++
-		ex.dispatch(fr, d.cc, d.fv, d.args, d.g)
-		ex.suppress--
+	// deferred calls run under their registration guard (covers normal and panicking exits);
+	// recover() inside them is non-nil exactly under the guard under which this frame is panicking
+	if len(fr.defers) > 0 {
+		ctx := &recoverCtx{panicking: fr.panicked, recovered: FF}
+		ex.recoverStack = append(ex.recoverStack, ctx)
+		deferredPanic := FF
+		for i := len(fr.defers) - 1; i >= 0; i-- {
+			d := fr.defers[i]
+			ex.suppress++
+			_, p := ex.dispatch(fr, d.cc, d.fv, d.args, d.g)
+			ex.suppress--
+			deferredPanic = Or(deferredPanic, p)
+		}
+		ex.recoverStack = ex.recoverStack[:len(ex.recoverStack)-1]
+		fr.panicked = Or(And(fr.panicked, Not(ctx.recovered)), deferredPanic)
 	}
 	var res Value
 	for i, r := range fr.rets {
@@ -1873,6 +1888,15 @@ func (ex *Exec) builtin(fr *Frame, f *ssa.Builtin, cc *ssa.CallCommon, args []Va
 		}
 		return p
 	case "recover":
+		if n := len(ex.recoverStack); n > 0 {
+			ctx := ex.recoverStack[n-1]
+			rec := And(fr.g, ctx.panicking)
+			if rec == FF {
+				return IfaceV{}
+			}
+			ctx.recovered = Or(ctx.recovered, rec)
+			return IfaceV{[]IC{{rec, types.Typ[types.String], S("<recovered panic value>")}}}
+		}
 		return IfaceV{}
 	}
 	unsup("builtin %s", f.Name())
